@@ -39,6 +39,16 @@ where
         Err(_) => return "refused:panic".to_string(),
     };
     unsafe { libc::alarm(5) };
+    {
+        // the same number listed twice in a constructor's set is still one registration: one record per delivery
+        let mut dup = SignalsInfo::<E>::new(&[sig, sig]).unwrap();
+        unsafe { libc::raise(sig) };
+        let d: Vec<i32> = dup.wait().map(|x| x.num()).chain(dup.pending().map(|x| x.num())).collect();
+        let mine: Vec<i32> = inst.pending().map(|x| x.num()).collect();
+        if d != vec![sig] || mine != vec![sig] {
+            return format!("extra:listed-twice:{:?}:{:?}", d, mine).replace(' ', "");
+        }
+    }
     unsafe { libc::raise(sig) };
     let got: Vec<i32> = inst.wait().map(|x| x.num()).collect();
     if got.is_empty() {
